@@ -61,6 +61,49 @@ theorem C25_lookup {fs : FS} {fuel : Nat} {main : Seg} {st : St}
   obtain ⟨s, hs, hd⟩ := hrt hq
   exact ⟨s, by rw [docResolve, ← specResolve_acyclic hac hch r]; exact hs, hd⟩
 
+/-- **The rule of the current file comes first — for every name and every import graph.**
+An unqualified reference to a name the referring file defines itself resolved to the class of
+that file's own rule.  No hypothesis on the name: a file that defines its own `ID`, `INT`,
+`STRING`, … (the names of the built-in rules) gets its own rule, not the built-in one; no
+hypothesis on the import graph either (the referring file is never among the files that are
+invisible to it).  References are all rule names a rule mentions: assignments, the match rule
+of a link (`[X]` names `ID`), references without assignment. -/
+theorem C25_own_first {fs : FS} {fuel : Nat} {main : Seg} {st : St}
+    (h : loadMain fs fuel main = .ok st) (e : ResEntry) (he : e ∈ st.resolved)
+    (f : File) (hf : fs e.ns = some f) :
+    All2 (fun r t => r.qual = none → f.defines r.name = true → Denotes st.classes t (.rule e.ns r.name))
+      e.rule.refs e.targets := by
+  obtain ⟨_, hall⟩ := C25_lookup_general h e he
+  refine All2.imp ?_ hall
+  intro r t hrt hq hdef
+  obtain ⟨s, hs, hd⟩ := hrt hq
+  have : s = .rule e.ns r.name := by
+    simp [specResolve, hq, hf, hdef] at hs
+    exact hs.symm
+  rw [← this]
+  exact hd
+
+/-- **Built-in rules.**  An unqualified built-in name the referring file does not define
+resolved to the built-in rule, whatever the imported files define (in textX the built-in rules
+are the first import of every file; the documentation is silent about this order) — so the
+built-in rule is used exactly when the file has no rule of that name. -/
+theorem C25_builtin {fs : FS} {fuel : Nat} {main : Seg} {st : St}
+    (h : loadMain fs fuel main = .ok st) (e : ResEntry) (he : e ∈ st.resolved)
+    (f : File) (hf : fs e.ns = some f) :
+    All2 (fun r t => r.qual = none → f.defines r.name = false → r.name ∈ baseNames → t = .base r.name)
+      e.rule.refs e.targets := by
+  obtain ⟨_, hall⟩ := C25_lookup_general h e he
+  refine All2.imp ?_ hall
+  intro r t hrt hq hdef hb
+  obtain ⟨s, hs, hd⟩ := hrt hq
+  have : s = .base r.name := by
+    simp [specResolve, hq, hf, hdef, hb] at hs
+    exact hs.symm
+  subst this
+  cases t with
+  | cls c => exact (hd).elim
+  | base a => simp [Denotes] at hd; rw [hd]
+
 /-- **Nothing is left out.**  For every file that was loaded the second pass recorded one entry
 per rule, in rule order — so `C25_lookup` / `C25_qualified` speak about every rule reference of
 every grammar file connected to the main file. -/
@@ -220,6 +263,24 @@ is `sub.c.Z` (import order, not `sub.d.Z`); `sub.c`'s `Z` is its own. -/
 example : (loadMain exFS 5 "m").toOption.map (fun st => st.resolved.map fun e => (e.ns, e.rule.name, e.targets)) =
     some [(["sub", "d"], "Z", []), (["sub", "c"], "X", [.cls 2]), (["sub", "c"], "Z", []),
       (["b"], "X", [.cls 3]), (["m"], "Main", [.cls 3, .cls 1, .cls 2])] := by
+  decide +kernel
+
+/-- Names of built-in rules: `m` defines its own `INT`, `lib` its own `ID`; both refer to `INT`
+and `ID` (rule `Main` also to `lib.ID`; the last reference of `Item` is the implicit `ID` of a link). -/
+def builtinFS : FS := fun ns =>
+  if ns = ["m"] then
+    some ⟨[["lib"]], [⟨"Main", [⟨none, "Item"⟩, ⟨none, "INT"⟩, ⟨none, "ID"⟩, ⟨some ["lib"], "ID"⟩]⟩, ⟨"INT", []⟩]⟩
+  else if ns = ["lib"] then some ⟨[], [⟨"Item", [⟨none, "ID"⟩, ⟨none, "INT"⟩, ⟨none, "ID"⟩]⟩, ⟨"ID", []⟩]⟩
+  else none
+
+/-- … classes `lib.Item`, `lib.ID`, `m.Main`, `m.INT` (0–3): in `m`, `INT` is `m.INT` and `ID` the
+built-in rule (not `lib.ID`, which the qualified name selects); in `lib`, `ID` is `lib.ID` — also
+for the link — and `INT` the built-in rule.  (`C25_own_first`, `C25_builtin` are not vacuous.) -/
+example : (loadMain builtinFS 3 "m").toOption.map
+      (fun st => (st.classes, st.resolved.map fun e => (e.ns, e.rule.name, e.targets))) =
+    some ([(["lib"], "Item"), (["lib"], "ID"), (["m"], "Main"), (["m"], "INT")],
+      [(["lib"], "Item", [.cls 1, .base "INT", .cls 1]), (["lib"], "ID", []),
+       (["m"], "Main", [.cls 0, .cls 3, .base "ID", .cls 1]), (["m"], "INT", [])]) := by
   decide +kernel
 
 /-- The documented order does **not** hold for every import graph (cyclic imports, open known
